@@ -36,6 +36,9 @@ def seq_elem(v):
             return "int"
         if all(isinstance(x, bytes) or (isinstance(x, SSeq) and x.kind == "bytes" and x.elem == "int") for x in v):
             return "bytes"
+        if all((isinstance(x, tuple) and all(isinstance(y, (int, SInt)) and not isinstance(y, bool) for y in x))
+               or (isinstance(x, SSeq) and x.kind == "tuple" and x.elem == "int") for x in v):
+            return "tuple"          # a tuple of int tuples (e.g. sub-segments: a tuple of nibble tuples)
         return "mixed"
     return None
 
@@ -50,7 +53,7 @@ def seq_term(v):
         e = seq_elem(v)
         if e == "int":
             return as_seq_term(v)
-        if e == "bytes":
+        if e in ("bytes", "tuple"):
             return seqseq_const(v)
     raise Unsupported("no sequence term for %r" % (v,))
 
@@ -76,6 +79,8 @@ def elem_value(t, elem):
         return mk_int(t)
     if elem == "bytes":
         return SSeq(z3.simplify(t), "bytes", "int")
+    if elem == "tuple":
+        return SSeq(z3.simplify(t), "tuple", "int")
     raise Unsupported("element kind %r" % elem)
 
 
@@ -241,6 +246,12 @@ def truth(v):
             z3.And(PyVal.is_PTup(t), z3.Length(PyVal.ptup(t)) > 0),
             z3.And(PyVal.is_PTupB(t), z3.Length(PyVal.ptupb(t)) > 0),
             PyVal.is_PSentinel(t)))
+    if isinstance(v, DictObj):
+        # a symbolic dictionary is truthy iff it has a key
+        if v.has is None:
+            raise Unsupported("truth value of a dictionary without a symbolic domain")
+        k = z3.Const("k!dictnonempty", v.has.sort().domain())
+        return mk_bool(z3.Exists([k], z3.Select(v.has, k)))
     if isinstance(v, (Obj, Sentinel, ExcObj)):
         return True
     if callable(v) or hasattr(v, "__pyvc_callable__"):
